@@ -75,6 +75,18 @@ func TestC16(t *testing.T) {
 		r.Count("injection_state."+c.res.StopState, 1)
 		r.NonTrivial(jsonString(sc))
 	})
+	// a divider fault whose error nobody reads from Err(), then Stop(): it must return all the same
+	r.Parallel(t, "priority-stop-after-unread-divider-error", r.Cfg.pick(400, 8000), func(t *testing.T, idx int, rng *rand.Rand) {
+		sc := genPrioScenario(rng, prioGen{Vers: []string{"v1", "v1s", "v1s"}, Dividers: []string{"fair", "rate", "hashw"}, Mode: "general", MaxH: 24})
+		sc.Fault = &DivFault{At: 1 + rng.IntN(30), Kind: []string{"plus1", "double", "minus1", "outside"}[rng.IntN(4)]}
+		sc.IgnoreErr = true
+		c := r.prioCase(t, sc)
+		if c.res != nil && c.res.ErrIgnored && c.res.TermWay == "divider-fault-then-stop" {
+			r.Count("stops_after_an_unread_divider_error", 1)
+			r.Distinct("injection_states", sc.Ver+"/stop/after-unread-divider-error")
+			r.NonTrivial(jsonString(sc))
+		}
+	})
 	joinBody := func(g joinGen) func(t *testing.T, idx int, rng *rand.Rand) {
 		return func(t *testing.T, idx int, rng *rand.Rand) {
 			res := r.joinCase(t, genJoinScenario(rng, g), rng)
